@@ -8,7 +8,9 @@ EXTENDS URL, Json
 Rule(n, d) == [name |-> n, desc |-> d]
 FragsV == { <<"ta">>, <<"ta", "1">>, <<"ta", "1", "r">>, <<"ta", "1", "rs">>, <<"ta", "1", "relationships", "rs">>,
             <<"ta", "1", "relationships", "r">>, <<"tb">>, <<"tb", "2", "s">>, <<"tc">>, <<"tc", "3">>, <<"zz">>, <<>>,
-            <<"ta", "1", "zz">>, <<"ta", "1", "relationships", "zz">>, <<"ta", "1", "rs", "x", "y", "z">>, <<"meta">> }
+            <<"ta", "1", "zz">>, <<"ta", "1", "relationships", "zz">>, <<"ta", "1", "rs", "x", "y", "z">>, <<"meta">>,
+            <<"ta", "1", "relationships">>, <<"tb", "2", "relationships">>, <<"ta", "1", "rs", "x", "r">>,
+            <<"ta", "1", "relationships", "rs", "x">> }
 FieldsV == { <<>>, [ta |-> <<"x">>], [ta |-> <<"x", "y", "r">>], [ta |-> <<"x", "x">>], [ta |-> <<>>],
              [ta |-> <<"id", "zz">>], [ta |-> <<"id">>], [ta |-> <<"id", "x", "id">>], [tb |-> <<"id", "id">>], [tb |-> <<"z">>], [zz |-> <<"a">>], [tc |-> <<"id">>],
              [ta |-> <<"rs", "r">>, tb |-> <<"q", "z", "zz">>], [tc |-> <<"zz">>], [tb |-> <<"z", "s", "z">>] }
@@ -16,7 +18,8 @@ SortV == { <<>>, <<Rule("x", FALSE)>>, <<Rule("x", TRUE)>>, <<Rule("id", FALSE)>
            <<Rule("zz", FALSE)>>, <<Rule("", TRUE)>>, <<Rule("x", FALSE), Rule("x", FALSE)>>,
            <<Rule("x", FALSE), Rule("x", TRUE), Rule("y", FALSE), Rule("id", FALSE)>>,
            <<Rule("y", TRUE), Rule("x", FALSE)>>, <<Rule("z", FALSE), Rule("id", FALSE), Rule("z", TRUE)>>,
-           <<Rule("r", FALSE)>>, <<Rule("-x", TRUE)>>, <<Rule("-id", TRUE)>>, <<Rule("-", TRUE), Rule("y", FALSE)>>, <<Rule("x", FALSE), Rule("y", FALSE), Rule("x", FALSE), Rule("y", FALSE), Rule("id", FALSE)>> }
+           <<Rule("r", FALSE)>>, <<Rule("x", FALSE), Rule("y", FALSE), Rule("x", FALSE)>>,
+           <<Rule("y", FALSE), Rule("y", TRUE), Rule("y", FALSE)>>, <<Rule("z", FALSE), Rule("z", FALSE)>>, <<Rule("-x", TRUE)>>, <<Rule("-id", TRUE)>>, <<Rule("-", TRUE), Rule("y", FALSE)>>, <<Rule("x", FALSE), Rule("y", FALSE), Rule("x", FALSE), Rule("y", FALSE), Rule("id", FALSE)>> }
 InclV == { <<>>, <<<<"r">>>>, <<<<"rs">>>>, <<<<"r">>, <<"rs">>>>, <<<<"rs">>, <<"r">>>>, <<<<"zz">>, <<"yy">>>>,
            <<<<"zz">>>>, <<<<"r", "q">>>>, <<<<"r">>, <<"r", "q">>>>, <<<<"r", "q", "rs", "s">>>>, <<<<"r", "zz">>>>,
            <<<<"r">>, <<"r", "zz">>>>, <<<<"q">>>>, <<<<"s", "r">>, <<"q">>, <<"zz">>>>, <<<<"r">>, <<"r">>>>,
